@@ -150,7 +150,7 @@ theorem seal_ok : ∃ ss, sealState env s0 none = .ok ss := by
   refine sealState_ok env s0 none
     (fun _ => ⟨List.nodup_nil, List.nodup_nil, fun a => rfl, fun e he => nomatch he⟩)
     (fun tx htx => nomatch htx) List.nodup_nil
-    (fun k p h => by rw [hpools] at h; cases h) (fun k _ p h => by rw [hpools] at h; cases h)
+    (fun k p h => by rw [hpools] at h; cases h)
     (fun k _ p h => by
       rcases createBuiltins_get s0 k with e | e
       · rw [e, hpools] at h; cases h
